@@ -36,6 +36,14 @@ class FileInfo:
         self.inlined_artefacts: set[str] = set()
         self.clean_tree = ast.parse(text, filename=rel)    # un-annotated: source of callee bodies for the inliner
         self.clean_funcs = {s.name: s for s in self.clean_tree.body if isinstance(s, ast.FunctionDef)}
+        # names imported from sibling modules of the package: local name -> (module path relative to the package, original name)
+        self.imported: dict[str, tuple[str, str]] = {}
+        here = rel.split("/")[:-1]
+        for s in self.clean_tree.body:
+            if isinstance(s, ast.ImportFrom) and s.level >= 1 and len(here) >= s.level - 1:
+                base = here[: len(here) - (s.level - 1)] + (s.module.split(".") if s.module else [])
+                for a in s.names:
+                    self.imported[a.asname or a.name] = ("/".join(base), a.name)
 
     def normalise(self, model) -> None:
         """Build the normalised tree the rules work on (see tiv/normalize.py); the raw tree stays in raw_tree."""
